@@ -1,3 +1,4 @@
+import Props.C07Jwt
 import Model.ClientAuth
 /-
   C07 — a request is treated as coming from a client only with that client's identifier, valid
